@@ -92,6 +92,7 @@ struct BudgetExceeded;
 
 thread_local! {
     static LAST_PANIC: RefCell<String> = RefCell::new(String::new());
+    static IN_LIB: std::cell::Cell<bool> = std::cell::Cell::new(false);
 }
 
 pub fn install_panic_hook() {
@@ -104,6 +105,10 @@ pub fn install_panic_hook() {
         } else {
             "<non-string panic>".to_string()
         };
+        if !IN_LIB.with(|f| f.get()) {
+            // a panic of the harness itself: never swallow it
+            eprintln!("HARNESS PANIC: {msg} @ {loc}");
+        }
         LAST_PANIC.with(|p| *p.borrow_mut() = format!("{msg} @ {loc}"));
     }));
 }
@@ -168,7 +173,9 @@ pub fn run_lib<T>(script: &RngScript, f: impl FnOnce() -> T) -> (Outcome<T>, Rng
             }
         }));
     }
+    IN_LIB.with(|f| f.set(true));
     let r = catch_unwind(AssertUnwindSafe(f));
+    IN_LIB.with(|f| f.set(false));
     gm_sm2::verif_hooks::clear_source();
     gm_sm9::verif_hooks::clear_source();
     gm_sm2::verif_hooks::clear_observer();
